@@ -733,7 +733,9 @@ class EvolvableAlgorithm(ABC, metaclass=RegistryMeta):
                 optimizer_kwargs=opt_config.optimizer_kwargs,
                 multiagent=opt_config.multiagent,
             )
-            opt.load_state_dict(orig_optimizer.state_dict())
+            # NOTE: torch's load_state_dict keeps references to the state tensors it is
+            # given, so copy them to avoid sharing optimizer moments with the parent
+            opt.load_state_dict(copy.deepcopy(orig_optimizer.state_dict()))
             setattr(clone, opt_config.name, opt)
 
         # Prepare with accelerator / compiler if necessary
